@@ -200,6 +200,63 @@ def systematic_mutants(ctx: Ctx, outdir: Path, kinds: list[str]) -> list[str]:
     return out
 
 
+# two operands that a check compares for sameness, made ALMOST the same: the forms differ in one structural respect
+# (arity, a keyword, a star, subscript vs slice, one more attribute, a call of the result, a lambda parameter)
+NEAR_EQUAL_FORMS = [("g({n})", "g({n}, 1)"), ("{n}.get(0)", "{n}.get(0, 1)"), ("g({n}, k=1)", "g({n})"), ("{n}[0]", "{n}[0:1]"), ("g(*{n})", "g({n})"),
+                    ("{n}.a", "{n}.a.b"), ("g({n})()", "g({n})"), ("(lambda: {n})", "(lambda q: {n})"), ("g({n}, 1)", "g({n}, k=1)"), ("{{{n}: 1}}", "{{{n}: 1, **KW}}"),
+                    ("[{n}, {n}]", "[{n}]"), ("({n} < {n} < 1)", "({n} < {n})")]
+
+
+class _Occurrences(ast.NodeTransformer):
+    """in every statement where a name is read at least twice: its first reading becomes form A of it, its second form B"""
+
+    def __init__(self, form: tuple[str, str]):
+        self.form, self.edits = form, 0
+
+    def visit(self, node):
+        if isinstance(node, ast.stmt) and not isinstance(node, (ast.FunctionDef, ast.AsyncFunctionDef, ast.ClassDef, ast.If, ast.For, ast.While, ast.With, ast.Try, ast.Match)):
+            reads: dict[str, list] = {}
+            for x in ast.walk(node):
+                if isinstance(x, ast.Name) and isinstance(x.ctx, ast.Load):
+                    reads.setdefault(x.id, []).append(x)
+            twice = {k: sorted(v, key=lambda x: (x.lineno, x.col_offset))[:2] for k, v in reads.items() if len(v) >= 2 and k not in ("g", "KW", "print", "len", "isinstance", "type")}
+            if twice:
+                repl = {}
+                for k, (a, b) in twice.items():
+                    repl[id(a)] = ast.parse(self.form[0].format(n=k), mode="eval").body
+                    repl[id(b)] = ast.parse(self.form[1].format(n=k), mode="eval").body
+                    self.edits += 1
+
+                class Put(ast.NodeTransformer):
+                    def visit_Name(self, n):
+                        return repl.get(id(n), n)
+                return Put().visit(node)
+            return node
+        return self.generic_visit(node)
+
+
+def near_equal_operands(ctx: Ctx, outdir: Path) -> list[str]:
+    seeds = sorted(glob.glob(str(REPO / "test" / "data" / "err_*.py")))
+    out = []
+    per_seed = len(NEAR_EQUAL_FORMS) if ctx.tier == "thorough" else 3
+    for si, seed in enumerate(seeds):
+        for fi in range(per_seed):
+            form = NEAR_EQUAL_FORMS[(si + fi * 5) % len(NEAR_EQUAL_FORMS)]
+            try:
+                tr = _Occurrences(form)
+                tree = ast.fix_missing_locations(tr.visit(ast.parse(Path(seed).read_text())))
+                if not tr.edits:
+                    continue
+                src = "import sys\nfrom typing import TYPE_CHECKING, Any\nARGS = []\nKW: Any = {}\nclass _O: pass\nOBJ: Any = _O()\ndef g(*a: Any, **k: Any) -> Any: ...\n" + ast.unparse(tree) + "\n"
+                compile(src, "m", "exec")
+            except Exception:  # noqa: BLE001
+                continue
+            p = outdir / f"near_{NEAR_EQUAL_FORMS.index(form)}_{Path(seed).stem}.py"
+            p.write_text(src)
+            out.append(str(p))
+    return out
+
+
 def mutants(ctx: Ctx, outdir: Path, n: int) -> list[str]:
     seeds = sorted(glob.glob(str(REPO / "test" / "data" / "err_*.py")))
     out = []
@@ -368,6 +425,9 @@ def run(ctx: Ctx) -> None:
         muts = mutants(ctx, td, ctx.budget(60, 1500))
         smuts = systematic_mutants(ctx, td, list(KINDS))
         ctx.count("systematic-mutants", len(smuts))
+        near = near_equal_operands(ctx, td)
+        ctx.count("near-equal-operand-files", len(near))
+        smuts = smuts + near
         std = stdlib_sample(ctx, ctx.budget(48, 100000))
         ctx.count("mutants", len(muts))
         ctx.count("stdlib-files", len(std))
